@@ -1,6 +1,7 @@
 SPECIFICATION Spec
 CONSTANTS
   MaxQ = 2
+  TwoPackets = TRUE
   KnownUniverse = {"ptr"}
   Deviations = {}
   QuarterRule = TRUE
@@ -8,5 +9,5 @@ CONSTANTS
 INVARIANT Asked
 INVARIANT Routes
 INVARIANT AddsOwn
-CONSTRAINT EmitSampled
+CONSTRAINT EmitSampled2
 CHECK_DEADLOCK FALSE
